@@ -14,8 +14,11 @@ from ..models import em as emmodel, mrc as mrcmodel
 
 from cryocat import cryomap
 
+# a deliberately tiny namespace (collisions, stale files, default-name derivation hitting existing files); the
+# base names end in letters that also occur in the extensions (volume.em, tomogram.mrc, avg_c.mrc, ...)
 PATHS = [ROOT + "/work/a.mrc", ROOT + "/work/a.em", ROOT + "/work/b.rec", ROOT + "/work/b.mrc", ROOT + "/data/a.em",
-         ROOT + "/data/a.mrc", "rel.mrc", "rel.em"]
+         ROOT + "/data/a.mrc", "rel.mrc", "rel.em", ROOT + "/work/volume.em", ROOT + "/work/volume.mrc",
+         ROOT + "/work/tomogram.mrc", ROOT + "/work/tomogram.em", "avg_c.mrc", "ribosome.em"]
 DTYPES = ["float32", "float64", "int16", "int8"]
 EM_CODE = {"int8": 1, "int16": 2, "int32": 4, "float32": 5, "float64": 9}
 MRC_MODE = {"int8": 0, "int16": 1, "float32": 2}
